@@ -185,6 +185,52 @@ def c12_bracket(k0: int, k1: int, k2: int, k3: int, k4: int, n1: int, n2: int) -
     return ""
 
 
+def _backend_history(progs):
+    """[(accepted?, number of subcircuits or error text)] of running the programs in turn on ONE backend object
+    (natively; the backend object never crosses the tracing boundary, which would copy it)."""
+    from jaqalpaq.emulator.unitary import UnitarySerializedEmulator
+    be = UnitarySerializedEmulator()
+    out = []
+    for sx in progs:
+        c = build(sx, inject_pulses=NATIVE)
+        try:
+            res = run_jaqal_circuit(c, backend=be)
+            out.append((True, len(res.subcircuits)))
+        except JaqalError as ex:
+            out.append((False, str(ex)))
+    return out
+
+
+def c12_backend(a0: int, a1: int, b0: int, b1: int) -> str:
+    """Two programs executed one after the other on ONE backend object (run_jaqal_circuit(c, backend=be)): the verdict
+    on each is the reference automaton's, i.e. what a fresh backend object gives; nothing of the first run (an open
+    section, a rejection half-way) leaks into the second.  The programs are realised and executed with the tracer
+    suspended: the solver selects the histories (enumeration-equivalent)."""
+    head = ["circuit", ["register", "r", 2]]
+    progs = [head + SLOT[a0] + SLOT[a1], head + SLOT[b0] + SLOT[b1]]
+    wants = []
+    for sx in progs:
+        ref, why = try_ref(sx)
+        if ref is None:
+            return f"harness error: reference rejects the skeleton ({why})"
+        try:
+            wants.append(automaton(expand_sub_tree(ref)))
+        except Reject as ex:
+            wants.append(None)
+    try:
+        got = concretely(_backend_history, progs)
+    except Exception as ex:
+        return f"non-JaqalError escaped from a run on the shared backend object: {exc(ex)} :: {progs}"
+    for n, ((ok, info), want) in enumerate(zip(got, wants)):
+        if ok and want is None:
+            return f"run {n + 1} on the shared backend object accepted an ill-bracketed program ({info} subcircuits) :: {progs}"
+        if not ok and want is not None:
+            return f"run {n + 1} on the shared backend object rejected a well-bracketed program ({info}) :: {progs}"
+        if ok and info != want:
+            return f"run {n + 1} on the shared backend object found {info} subcircuits, expected {want} :: {progs}"
+    return ""
+
+
 def _has_pm(t):
     if t[0] == "g":
         return t[1] in ("prepare_all", "measure_all")
@@ -284,6 +330,15 @@ def visit_program(shape, spell, n1, n2, n3, lets):
             + [["loop", c3, ["sequential_block", ["gate", "ms", ("array_item", "r", 1), 0.75]]]]
         visits = n1 * [0] + [1] + n2 * [2, 3] + n3 * [4]
         nsub = 5
+    elif shape == 4:
+        # loop n1 { loop n2 { S0 } } ; loop n3 { S1 } ; loop n2 { loop n1 { S2 } } ; S3
+        # (a loop that may run zero times nested as the only statement of another loop, followed by sections at the
+        # same position and depth in later statements)
+        body = [["loop", c1, ["sequential_block", ["loop", c2, ["sequential_block"] + section(e[0], 0)]]],
+                ["loop", c3, ["sequential_block"] + section(e[1], 1)],
+                ["loop", c2, ["sequential_block", ["loop", c1, ["sequential_block"] + section(e[2], 2)]]]] + section(e[3], 3)
+        visits = n1 * n2 * [0] + n3 * [1] + n2 * n1 * [2] + [3]
+        nsub = 4
     else:
         # S0 ; loop n1 { } ; loop n2 { S1 ; S2 } ; loop n3 { loop n1 { S3 } }
         body = section(e[0], 0) + [["loop", c1, ["sequential_block"]]] + [["loop", c2, ["sequential_block"] + section(e[1], 1) + section(e[2], 2)]] \
@@ -486,6 +541,18 @@ def par_program(shape, size, i, j, k, l, perm):
                 ["loop", 2, par(["gate", "g1", R0(k)], ["gate", "g1", A(l)])]]
     elif shape == 5:
         body = [par(["gate", "g1", R0(i)], par(["gate", "g1", R0(j)], ["gate", "g1", R0(k)])), par(["sequential_block", par(["gate", "g1", R0(l)])], ["gate", "g1", R0(i)])]
+    elif shape == 9:
+        # whole-register aliases (of the register, of another whole-register alias, of a sliced alias): the same
+        # physical qubit reached under different names in two branches
+        W = lambda name, x: ("array_item", name, x)
+        head = head + [["map", "w", "r"], ["map", "v", "w"], ["map", "u", "a"]]
+        body = [par(["gate", "g1", W("w", i)], ["gate", "g1", R0(j)]), par(["gate", "g1", W("v", k)], ["gate", "g1", W("u", 0)]), ["gate", "g1", W("w", l)]]
+    elif shape == 8:
+        # macros that index the register by a parameter / index a register parameter, each called several times with
+        # different arguments (one qubit object of the body serves all calls)
+        head = head + [["macro", "fi", "n", ["sequential_block", ["gate", "g1", R0("n")]]],
+                       ["macro", "la", "x", ["sequential_block", ["gate", "g1", ("array_item", "x", 1)]]]]
+        body = [par(["gate", "fi", i], ["gate", "fi", j]), ["gate", "la", "a"], par(["gate", "la", "r"], ["gate", "fi", k]), ["gate", "fi", l]]
     elif shape == 7:
         # prepare/measure-style gates use all qubits, also when they are a branch of a parallel block
         body = [par(["gate", "prepare_all"], ["gate", "g1", R0(i)]), ["gate", "g1", R0(j)], par(["gate", "g1", R0(k)], ["gate", "measure_all"])] if l % 2 == 0 else \
@@ -521,8 +588,19 @@ def _raw_tree(sx):
     return ("seq", [R._ref_stmt(env, {}, s) for s in body])
 
 
-def c13_parallel(shape: int, size: int, i: int, j: int, k: int, l: int) -> str:
+def _warm_up():
+    """History for the analyses: another circuit, over a register with another name and size, is analysed and
+    emulated first (in the same process)."""
+    w = ["circuit", ["register", "zz", 5], P, ["gate", "g1", ("array_item", "zz", 4)], M]
+    wc = build(w, inject_pulses=NATIVE)
+    get_used_qubit_indices(wc)
+    emulate(wc)
+
+
+def c13_parallel(shape: int, size: int, i: int, j: int, k: int, l: int, warm: int = 0) -> str:
     sx = par_program(shape, size, i, j, k, l, False)
+    if warm:
+        concretely(_warm_up)
     try:
         tree = concretely(_raw_tree, sx)
     except R.Invalid:
